@@ -99,6 +99,10 @@ GEN_QUICK = [
      2, [SAME], [SIG_A], [15], 0),
     ("algs", 2, 1, [name("a", "B")], [rd(Nf("a")), rd(Nf("b")), rd(Nf("c", "a"))],
      2, [SAME], [SIG_A, SIG_B], [5, 8, 10, 13, 14, 15, 200], 0),
+    # RFC 4592 2.1.1: an asterisk label that is not the leftmost label is an ordinary label (it counts for the
+    # Labels field and for the wildcard reduction), with and without a leftmost wildcard label
+    ("star", 1, 1, [name("sub", "*", "a"), name("*", "*", "a"), name("a", "sub", "*", "b"), name("*", "sub", "*", "b")],
+     [rd(Bf(1, 2, 3, 4)), rd(Bf(1, 2, 3, 5))], 2, [SAME], [SIG_A], [15], 1),
     ("chaos", 1, 3, [name("A")], [rd(Bf(1, 2, 3, 4)), rd(Bf(1, 2, 3, 5)), rd(Bf(0, 255, 0, 0))], 3, [SAME], [SIG_B], [13], 1),
 ]
 GEN_THOROUGH = GEN_QUICK + [
@@ -128,7 +132,7 @@ GEN_CFG = ["SPECIFICATION Spec", "CONSTANTS", "  G_Type <- P_Type", "  G_Class <
            "  G_Algs <- P_Algs", "  G_LabelsUpTo = {lup}", "INVARIANT Emit", "CHECK_DEADLOCK FALSE"]
 
 MC_CFGS = [("MC_Canonical_bytes", ("RecaseRdata", "ExpandWildcard")), ("MC_Canonical_names", ("ExpandWildcard",)),
-           ("MC_Canonical_wild", ()), ("MC_Canonical_nsec", ("RecaseRdata", "ExpandWildcard")),
+           ("MC_Canonical_wild", ()), ("MC_Canonical_istar", ()), ("MC_Canonical_nsec", ("RecaseRdata", "ExpandWildcard")),
            ("MC_Canonical_mx", ("ExpandWildcard",))]
 # thorough: the same universes with RRsets of up to 3 records and presentations of up to 4
 MC_THOROUGH = [("MCB", "bytes", 3, 3, ("RecaseRdata", "ExpandWildcard")), ("MCN", "names", 3, 3, ("ExpandWildcard",)),
@@ -256,7 +260,7 @@ def run(res, tier, seed):
     # ---- D
     mc_tla = os.path.join(vlib.SPEC, "MC_Canonical.tla")
     for cfg, az in MC_CFGS:
-        st = vlib.mc(mc_tla, os.path.join(vlib.SPEC, cfg + ".cfg"), wd, workers=8, allow_zero=az, timeout=900)
+        st = vlib.mc(mc_tla, os.path.join(vlib.SPEC, cfg + ".cfg"), wd, workers=6, allow_zero=az, timeout=900)
         res.add_mc(cfg, st)
     if thorough:
         for pre, nm, mz, mp, az in MC_THOROUGH:
@@ -264,7 +268,7 @@ def run(res, tier, seed):
             lines = [f"  MaxZone = {mz}" if l.strip().startswith("MaxZone") else
                      f"  MaxPres = {mp}" if l.strip().startswith("MaxPres") else l for l in lines]
             tla_p, cfg_p = vlib.wrapper(wd, f"MC_Canonical_{nm}_big", "MC_Canonical", {}, lines)
-            st = vlib.mc(tla_p, cfg_p, wd, workers=8, allow_zero=az, timeout=1500)
+            st = vlib.mc(tla_p, cfg_p, wd, workers=6, allow_zero=az, timeout=1500)
             res.add_mc(f"MC_Canonical_{nm}(MaxZone={mz},MaxPres={mp})", st)
     # design-level counterexample for the sorting rule found in the code (informational)
     rc, out = vlib.tlc(mc_tla, os.path.join(vlib.SPEC, "MC_Canonical_AsIs.cfg"), wd, workers=2, timeout=300)
@@ -279,7 +283,7 @@ def run(res, tier, seed):
                 "P_Universe": tla(set(uni)), "P_TtlPats": tla(set(pats)), "P_SigBases": tla(set(tla(s) for s in sigs)),
                 "P_Algs": tla(set(algs))}
         tla_p, cfg_p = vlib.wrapper(wd, "G_" + nm, "Gen_Canonical", defs, [l.format(maxlen=maxlen, lup=lup) for l in GEN_CFG])
-        cases, st = vlib.gen(tla_p, cfg_p, wd, workers=8, timeout=1200)
+        cases, st = vlib.gen(tla_p, cfg_p, wd, workers=6, timeout=1200)
         if not cases:
             raise vlib.ToolError(f"generator {nm} produced no cases")
         vlib.log(f"[c05] G_{nm}: {len(cases)} cases")
@@ -346,7 +350,7 @@ def run(res, tier, seed):
     counts = json.loads(o.strip().splitlines()[-1])
     mism, tst = vlib.trace_check_parallel(os.path.join(vlib.SPEC, "Trace_Canonical.tla"),
                                           os.path.join(vlib.SPEC, "Trace_Canonical.cfg"), wd, rpath,
-                                          shards=8, timeout=2400)
+                                          shards=6, timeout=2400)
     nev = counts["tbs_events"] + counts["sv_events"]
     res.traces += nev
     res.evaluations += nev
